@@ -7,15 +7,15 @@ namespace XalanModel.C13
 
 def keep (sp : StripFn) (l : Loc) : Bool := !l.stripped sp
 
-theorem stripKids_nil (sp : StripFn) (pn : Option QName) : Node.stripKids sp pn [] = [] := by
+theorem stripKids_nil (sp : StripFn) (pn : Option Tag) : Node.stripKids sp pn [] = [] := by
   simp [Node.stripKids]
 
-theorem stripKids_cons (sp : StripFn) (pn : Option QName) (k : Node) (ks : List Node) :
+theorem stripKids_cons (sp : StripFn) (pn : Option Tag) (k : Node) (ks : List Node) :
     Node.stripKids sp pn (k :: ks) =
       if k.stripped sp pn then Node.stripKids sp pn ks else k.strip sp :: Node.stripKids sp pn ks := by
   simp [Node.stripKids]
 
-theorem stripKids_eq_filterMap (sp : StripFn) (pn : Option QName) (ks : List Node) :
+theorem stripKids_eq_filterMap (sp : StripFn) (pn : Option Tag) (ks : List Node) :
     Node.stripKids sp pn ks = ks.filterMap (fun k => if k.stripped sp pn then none else some (k.strip sp)) := by
   induction ks with
   | nil => simp [stripKids_nil]
@@ -30,7 +30,7 @@ theorem Loc.strip_id (sp : StripFn) (l : Loc) : (l.strip sp).id = l.id := by
   simp only [Loc.strip, Loc.id]; exact node_strip_id sp l.focus
 
 /-- an unstripped focus stays where it is between its stripped siblings -/
-theorem stripKids_around (sp : StripFn) (pn : Option QName) (left right : List Node) (focus : Node)
+theorem stripKids_around (sp : StripFn) (pn : Option Tag) (left right : List Node) (focus : Node)
     (h : focus.stripped sp pn = false) :
     Node.stripKids sp pn (left.reverse ++ focus :: right)
       = (Node.stripKids sp pn left).reverse ++ focus.strip sp :: Node.stripKids sp pn right := by
@@ -49,7 +49,7 @@ theorem textOf_strip (sp : StripFn) : ∀ n : Node, n.textOf sp = (n.strip sp).t
   | .text _ _ => by simp [Node.textOf, Node.strip]
   | .comment _ _ => by simp [Node.textOf, Node.strip]
   | .pi _ _ _ => by simp [Node.textOf, Node.strip]
-theorem textOfKids_strip (sp : StripFn) (pn : Option QName) : ∀ ks : List Node,
+theorem textOfKids_strip (sp : StripFn) (pn : Option Tag) : ∀ ks : List Node,
     Node.textOfKids sp pn ks = Node.textOfKids noStrip pn (Node.stripKids sp pn ks)
   | [] => by simp [Node.textOfKids, Node.stripKids]
   | k :: ks => by
@@ -82,7 +82,7 @@ theorem Loc.strVal_strip (sp : StripFn) (l : Loc) : (l.strip sp).strVal noStrip 
 theorem strippedLoc_frame (sp : StripFn) (k : Node) (f : Frame) (p : List Frame) :
     Loc.stripped sp ⟨k, f :: p⟩ = k.stripped sp f.pname := rfl
 
-theorem sibsRight_strip (sp : StripFn) (pid : Nat) (pn : Option QName) (path : List Frame) :
+theorem sibsRight_strip (sp : StripFn) (pid : Nat) (pn : Option Tag) (path : List Frame) :
     ∀ (ks left : List Node),
       ((sibsRight pid pn path left ks).filter (keep sp)).map (Loc.strip sp)
         = sibsRight pid pn (path.map (Frame.strip sp)) (Node.stripKids sp pn left) (Node.stripKids sp pn ks)
@@ -102,7 +102,7 @@ theorem sibsRight_strip (sp : StripFn) (pid : Nat) (pn : Option QName) (path : L
       rw [← ih]
       simp [Loc.strip, Frame.strip]
 
-theorem sibsLeft_strip (sp : StripFn) (pid : Nat) (pn : Option QName) (path : List Frame) :
+theorem sibsLeft_strip (sp : StripFn) (pid : Nat) (pn : Option Tag) (path : List Frame) :
     ∀ (ks right : List Node),
       ((sibsLeft pid pn path ks right).filter (keep sp)).map (Loc.strip sp)
         = sibsLeft pid pn (path.map (Frame.strip sp)) (Node.stripKids sp pn ks) (Node.stripKids sp pn right)
@@ -164,7 +164,7 @@ theorem precedingSiblings_strip (sp : StripFn) (l : Loc) (h : l.stripped sp = fa
     simpa [hf] using this
 
 /-- a rebuilt parent element is never a stripped node -/
-theorem parentNode_not_stripped (sp : StripFn) (f : Frame) (focus : Node) (pn : Option QName) :
+theorem parentNode_not_stripped (sp : StripFn) (f : Frame) (focus : Node) (pn : Option Tag) :
     (f.parentNode focus).stripped sp pn = false := rfl
 
 theorem parentLoc_not_stripped (sp : StripFn) (f : Frame) (focus : Node) (p : List Frame) :
@@ -230,7 +230,7 @@ theorem descNode_strip (sp : StripFn) (path : List Frame) : ∀ n : Node,
   | .text _ _ => by simp [descNode, Node.strip]
   | .comment _ _ => by simp [descNode, Node.strip]
   | .pi _ _ _ => by simp [descNode, Node.strip]
-theorem descKids_strip (sp : StripFn) (pid : Nat) (pn : Option QName) (path : List Frame) :
+theorem descKids_strip (sp : StripFn) (pid : Nat) (pn : Option Tag) (path : List Frame) :
     ∀ (ks left : List Node),
       ((descKids pid pn path left ks).filter (keep sp)).map (Loc.strip sp)
         = descKids pid pn (path.map (Frame.strip sp)) (Node.stripKids sp pn left) (Node.stripKids sp pn ks)
